@@ -619,6 +619,20 @@ func (p *Parser) isJSONOperator() bool {
 
 // parsePrimaryExpression parses a primary expression (literals, identifiers, function calls)
 func (p *Parser) parsePrimaryExpression() (ast.Expression, error) {
+	// Depth guard: NOT chains, comparison right-hand sides and MATCH ... AGAINST re-enter
+	// this function without passing through parseExpression
+	p.depth++
+	defer func() { p.depth-- }()
+
+	if p.depth > MaxRecursionDepth {
+		return nil, goerrors.RecursionDepthLimitError(
+			p.depth,
+			MaxRecursionDepth,
+			p.currentLocation(),
+			"",
+		)
+	}
+
 	if p.isType(models.TokenTypeCase) {
 		// Handle CASE expressions (both simple and searched forms)
 		return p.parseCaseExpression()
